@@ -61,6 +61,12 @@ type Target struct {
 	// one (directly or through targets) takes and returns the world in the same
 	// way; the order of the effects is the order of evaluation of the Go code.
 	Effect bool
+	// InstantiateAny (functions): parameters of type `any` / interface{} that are
+	// instantiated with the static type of the argument at each call site (one
+	// translation per type, suffix `_Type`), like a type parameter: inside the
+	// body the parameter has that type. For `func run(.., resp interface{})`
+	// called as `run(.., &metadata)`, whose body hands resp to json.Unmarshal.
+	InstantiateAny []string
 	// AnyReceiver (oracles that are methods of an interface type declared
 	// Opaque): the receiver is NOT an argument of the oracle, which then stands
 	// for the method of one fixed receiver. ASSUMPTION (listed at the end of the
@@ -551,6 +557,9 @@ func (g *gen) translateRow(t *Target, fd *funcDecl, obj *types.Func, label strin
 				return // instantiated per call site (static type of the `any` argument)
 			}
 		}
+	}
+	if len(t.InstantiateAny) > 0 && !t.Oracle {
+		return // instantiated per call site (static type of the argument)
 	}
 	if generic && !t.Oracle {
 		if len(t.TypeArgs) == 0 {
